@@ -88,6 +88,9 @@ def check(prog, ctx):
     from .C14 import layout as _l   # front ends: shared rule with C14.c
     ctx.sub('front_ends', front_ends, prog, ctx)
     ctx.sub('statics', statics, prog, ctx)
+    ctx.rule('C13.f', 'dependency: the spherical overload builds its vectors with Spherical_Coordinates(r, theta, phi); it inherits the obligations '
+             'of C16 about that function (components r sin(theta) cos(phi), r sin(theta) sin(phi), r cos(theta) for every azimuth)', 1)
+    ctx.inherit('C16', lambda o: o.rule == 'C16.c' and o.instance.startswith('Spherical_Coordinates'), 'C13.f', 'the spherical integrals')
 
 
 def helper_discipline(prog, ctx):
